@@ -93,21 +93,35 @@ example : Conv.oobWrites (Conv.itoa (-12345) 3).2 3 = [] ∧ Conv.oobWrites (Con
 example : Conv.oobWrites ((Conv.Mem.init 2).set (Conv.pad + 2) 0) 2 = [Conv.pad + 2] := by decide
 
 /-- Mechanism = specification: when the decimal text of `v` plus its NUL fits (`length < max`), the
-    buffer left by `iwitoa` (digit loop least-significant-first, in-place reversal, NUL) holds exactly
-    the decimal text of `v` and the return value is its length. (`INT64_MIN` goes through `snprintf`
-    in the C code and is excluded here.) -/
-theorem itoa_refines_spec (v : Int) (max : Nat) (lo : -2 ^ 63 < v)
+    buffer left by `iwitoa` (digit loop least-significant-first, in-place reversal, NUL; `snprintf`
+    for `INT64_MIN`) holds exactly the decimal text of `v` and the return value is its length —
+    for every `v ≥ INT64_MIN` (the model mirrors the C code up to `INT64_MAX`). -/
+theorem itoa_refines_spec (v : Int) (max : Nat) (lo : -2 ^ 63 ≤ v)
     (hlen : (Conv.itoaSpec v).length < max) :
     Conv.cstr (Conv.itoa v max).2 = Conv.itoaSpec v ∧ (Conv.itoa v max).1 = (Conv.itoaSpec v).length :=
   Conv.itoa_spec v max lo hlen
 
 /-- Round trip through the mechanism: `iwatoi` applied to the buffer that `iwitoa` filled returns `v`,
-    for every 64-bit `v > INT64_MIN` and every buffer in which the text fits. -/
-theorem atoi_itoa (v : Int) (max : Nat) (lo : -2 ^ 63 < v) (hi : v < 2 ^ 63)
+    for EVERY 64-bit `v` (including `INT64_MIN` and `INT64_MAX`) and every buffer in which the text fits. -/
+theorem atoi_itoa (v : Int) (max : Nat) (lo : -2 ^ 63 ≤ v) (hi : v < 2 ^ 63)
     (hlen : (Conv.itoaSpec v).length < max) :
     Conv.wrap64 (Conv.atoi (Conv.cstr (Conv.itoa v max).2)) = v := by
   rw [(itoa_refines_spec v max lo hlen).1]
-  exact atoi_itoaSpec_wrap v (by omega) hi
+  exact atoi_itoaSpec_wrap v lo hi
+
+/-- a 21-byte buffer is enough for every 64-bit value (at most 19 digits and a sign) -/
+theorem itoaSpec_length_le (v : Int) (lo : -2 ^ 63 ≤ v) (hi : v < 2 ^ 63) : (Conv.itoaSpec v).length < 21 :=
+  Conv.itoaSpec_length_lt v lo hi
+
+/-- headline form: with a buffer of at least 21 bytes (`IWNUMBUF_SIZE` is 32) `iwatoi ∘ iwitoa` is the
+    identity on all 64-bit values -/
+theorem atoi_itoa64 (v : Int) (max : Nat) (lo : -2 ^ 63 ≤ v) (hi : v < 2 ^ 63) (hmax : 21 ≤ max) :
+    Conv.wrap64 (Conv.atoi (Conv.cstr (Conv.itoa v max).2)) = v :=
+  atoi_itoa v max lo hi (by have := itoaSpec_length_le v lo hi; omega)
+
+/-- non-vacuity: `INT64_MIN` into `IWNUMBUF_SIZE` bytes -/
+example : Conv.wrap64 (Conv.atoi (Conv.cstr (Conv.itoa (-2 ^ 63) Gen.IWNUMBUF_SIZE).2)) = -2 ^ 63 :=
+  atoi_itoa64 _ _ (by decide) (by decide) (by decide)
 
 /-- non-vacuity: "-12345" needs 7 bytes -/
 example : Conv.cstr (Conv.itoa (-12345) 7).2 = [45, 49, 50, 51, 52, 53] ∧ (Conv.itoa (-12345) 7).1 = 6 := by
